@@ -534,6 +534,14 @@ func sortedAfter(p *Prog, mr mapRange, ap *ssa.Call) (bool, []*ssa.Call) {
 			}
 			return false
 		}
+		// the generic spellings of the same calls (slices.Sort, SortFunc, SortStableFunc)
+		if o != nil && objPkgPath(o) == "slices" && strings.HasPrefix(o.Name(), "Sort") {
+			if len(cl.Call.Args) > 0 && isSame(cl.Call.Args[0]) {
+				sorts = append(sorts, cl)
+				return true
+			}
+			return false
+		}
 		if o != nil && o.Name() == "Sort" && len(cl.Call.Args) > 0 {
 			// versions.List.Sort orders by precedence only: versions that differ in build metadata
 			// alone keep the order they were appended in, i.e. map order — not a total order
